@@ -50,6 +50,9 @@ func TestC03(t *testing.T) {
 			}
 		}
 	}
+	for i := 0; i < r.Pick(12, 400); i++ {
+		cases = append(cases, mon.CaseSpec{Name: "openctx", Spec: c03Spec{Mode: "openctx", NOps: i}})
+	}
 	r.Run(cases, func(c *mon.Case) {
 		sp := c.Spec.(c03Spec)
 		switch sp.Mode {
@@ -57,6 +60,8 @@ func TestC03(t *testing.T) {
 			c03Seq(c, sp)
 		case "parked":
 			c03Parked(c, sp)
+		case "openctx":
+			c03OpenCtx(c, sp)
 		default:
 			c03Conc(c, sp)
 		}
